@@ -270,7 +270,7 @@ class Runner {
         for (uint16_t o : h) sys->apply(o, c);
         c.muted = false;
         if (!sys->enabled(op)) { c.out->evals--; c.tag("op-disabled"); return; }
-        c.site(sys->opname(op).c_str());
+        { std::string on = sys->opname(op); size_t par = on.find('('); c.site((par == std::string::npos ? on : on.substr(0, par)).c_str()); }  // arguments stay out of the crash signature
         sys->apply(op, c);
         if (c.failed) { c.emit("X"); return; }
         std::string cn = sys->canon();
